@@ -140,4 +140,11 @@ func compsOf(idx []int) []ecs.Comp {
 // APIHits counts calls per generated ark type and method (evidence for C14).
 var APIHits = map[string]int{}
 
-func hit(key string) { APIHits[key]++ }
+// HitsOff disables the (not goroutine-safe) API counter; set before goroutines are started (C13).
+var HitsOff bool
+
+func hit(key string) {
+	if !HitsOff {
+		APIHits[key]++
+	}
+}
